@@ -43,6 +43,8 @@ type Spec struct {
 	Extra interface{}
 	// Describe renders a history for samples/replays (coordinator side).
 	Describe func(h []int) interface{}
+	// Root is the history the search starts from (default: empty); a check hosting several worlds marks them here.
+	Root []int
 	// MaxStates caps the number of states (0 = none); hitting it marks the run non-exhaustive.
 	MaxStates int
 }
@@ -109,7 +111,7 @@ func BFS(run *ev.Run, s *Spec) Stats {
 	}
 	seen := map[string]bool{}
 	st := Stats{Exhaustive: true}
-	frontier := [][]int{{}}
+	frontier := [][]int{append([]int{}, s.Root...)}
 	describe := func(h []int) interface{} {
 		if s.Describe != nil {
 			return s.Describe(h)
